@@ -92,6 +92,32 @@ func (f *frame) stdlib(i *ssa.Call, full string, args []T, st *State, pc string)
 		return []T{{"(fabs " + args[0].S + ")", "F64"}}, pc, true
 	case "math.Pow":
 		return []T{{"(fpow " + args[0].S + " " + args[1].S + ")", "F64"}}, pc, true
+	case "reflect.TypeOf":
+		// the dynamic type of an interface value, as an identity: equal results <=> same dynamic type
+		a := args[0]
+		if a.So != "Any" {
+			break
+		}
+		return []T{g.s.def(i.Name(), T{"(kindcode " + a.S + ")", "Int"})}, pc, true
+	case "container/heap.Init":
+		return nil, pc, true
+	case "container/heap.Push":
+		// T-STD: the element is added (the adapter's Push is called once); ghost size + 1
+		g.declHeap("GH.hsize", "(Array Int Int)")
+		h := heapRefOf(i.Call.Args[0], f)
+		g.writeHeap(st, "GH.hsize", h, "(+ "+g.readHeap(st, "GH.hsize", h)+" 1)")
+		return nil, pc, true
+	case "container/heap.Pop":
+		// T-STD: removes and returns a minimum (by the adapter's Less) of the elements pushed so far;
+		// popping an empty heap panics
+		g.declHeap("GH.hsize", "(Array Int Int)")
+		h := heapRefOf(i.Call.Args[0], f)
+		f.panicOb("heappop", pc, "(> "+g.readHeap(st, "GH.hsize", h)+" 0)", i.Pos(), "heap.Pop on an empty heap")
+		g.writeHeap(st, "GH.hsize", h, "(- "+g.readHeap(st, "GH.hsize", h)+" 1)")
+		r := g.s.decl("popped", "Int")
+		et := types.NewPointer(g.P.Pkg.Types.Scope().Lookup("orderColumnsRow").Type())
+		g.s.assumeUnder(pc, and("(> "+r.S+" 0)", "(<= "+r.S+" "+g.alloc(st)+")", eq("(dyn "+r.S+")", g.tag(et))))
+		return []T{{"(ARef " + g.tag(et) + " " + r.S + ")", "Any"}}, pc, true
 	case "sort.Strings":
 		// sorts in place: the new content is an ascending permutation of the old one (T-STD)
 		sl := args[0]
@@ -220,4 +246,12 @@ func (f *frame) havocReachable(a ssa.Value, st *State, pc, who string) {
 		}
 		g.havocked = append(g.havocked, funcKey(f.fn)+": external "+who+" may write through a pointer argument (havocked)")
 	}
+}
+
+// heapRefOf: the reference of the heap object handed to container/heap (wrapped in heap.Interface).
+func heapRefOf(a ssa.Value, f *frame) string {
+	if mi, ok := a.(*ssa.MakeInterface); ok {
+		return f.val(mi.X).S
+	}
+	return f.val(a).S
 }
